@@ -1,5 +1,7 @@
 SPECIFICATION TSpec
 CONSTANT MaxN = 5
+CONSTANT Extra = {0, 1, 2}
+CONSTANT ZeroTracked = TRUE
 CONSTANT MaxQ = 3
 CONSTANT W0 = 100
 CONSTANT TickW = {80}
